@@ -93,7 +93,8 @@ theorem methods_complete (c : Cls) (hc : c ∈ classes) (n : Nat) (s : Schema)
     rw [hr] at h
     simpa [cellOk, hd] using h
 
-/-- Every registered schema (any version, any domain except the listed exception) has a class of exactly
+/-- Every registered schema (any version, any domain **except** the regenerated list `ungeneratedDomains` =
+`[ai.onnx.preview.training]`, which `opgen` is told to exclude: hypothesis `hu`) has a class of exactly
 its domain and since_version among the generated classes. -/
 theorem domains_complete (s : Schema) (hs : s ∈ schemas) (hu : s.domain ∉ ungeneratedDomains) :
     ∃ c ∈ classes, c.domain = s.domain ∧ c.version = s.since := by
@@ -151,9 +152,11 @@ example :
      | some s, some m => !s.deprecated && !m.stub && m.call.2.1 == 9
      | _, _ => false) = true := by decide +kernel
 
-/-- The same in the form of the property text, for names whose schema in force is not deprecated: the
-generated method and the dynamic lookup bind the same (name, since_version, domain); no exception list
-is involved. -/
+/-- The same in the form of the property text, **under the hypothesis that the schema in force is not
+deprecated** (hence the name `_partial`): the generated method and the dynamic lookup bind the same
+(name, since_version, domain).  The hypothesis is forced for this *form* of the statement: for a deprecated schema
+the class offers no method or a raising stub (whose `call` is empty), so the two keys cannot be equal; the
+unconditional statement is `dynamic_eq_static` above (via `agrees`). -/
 theorem dynamic_eq_static_partial (c : Cls) (hc : c ∈ classes) (n : Nat)
     (hdep : ∀ s, lookup schemas c.domain c.version n = some s → s.deprecated = false) :
     (resolve classes c.domain c.version n).map Method.call =
@@ -174,8 +177,10 @@ theorem dynamic_eq_static_partial (c : Cls) (hc : c ∈ classes) (n : Nat)
     rcases hmir with ⟨⟨⟨⟨⟨⟨⟨⟨⟨⟨⟨⟨_, _⟩, _⟩, h1⟩, h2⟩, h3⟩, _⟩, _⟩, _⟩, _⟩, _⟩, _⟩, _⟩
     exact Prod.ext h1 (Prod.ext h2 h3)
 
-/-- **Every argument is forwarded under its own name, by every generated method** (all 630, whether or not a
-schema is in force for it anywhere): the body passes the positional parameters in order, then `*vararg`, through
+/-- **Every argument is forwarded under its own name, by every live generated method** (the 630 of the 634
+generated `def`s that are not raising stubs — hypothesis `m.stub = false`; the 4 stubs `def Op(self, *args,
+**kwargs): raise NotImplementedError` have no call to forward to — whether or not a schema is in force for the
+method anywhere): the body passes the positional parameters in order, then `*vararg`, through
 `self._prepare_inputs(schema, …)`, and each keyword-only parameter `k` as `k=k` — no parameter dropped, renamed,
 swapped or replaced by an expression. -/
 theorem every_argument_forwarded (c : Cls) (hc : c ∈ classes) (m : Method) (hm : m ∈ c.methods)
@@ -241,12 +246,14 @@ theorem lookup_other_domains_name (reg : List Schema) (d N n : Nat)
   | none => rfl
   | some s => exact absurd ⟨(lookup_some hl).2.1, (lookup_some hl).2.2.1⟩ (h s (lookup_some hl).1)
 
-/-- The generated classes of a domain form the inheritance chain `Opset_d1(Opset) ← Opset_d2 ← …` with
+/-- (Re-export of the kernel-evaluated table fact `OV.Gen.C17.chain_ok`, no further content.)
+The generated classes of a domain form the inheritance chain `Opset_d1(Opset) ← Opset_d2 ← …` with
 consecutive versions, one class per file, with `Opset.__new__(cls, d, N)` literals `(d, N)` unique per
 class — which is what makes `resolve` (largest version `≤ N`) Python's attribute lookup. -/
 theorem chain_is_linear : chainOk opsetBase classes = true := chain_ok
 
-/-- `onnx_opset.all_opsets[(d, N)]` (and `onnxscript.opsetN`) is an instance of the class whose `__new__`
+/-- (Re-export of the kernel-evaluated table fact `OV.Gen.C17.exports_ok`, no further content.)
+`onnx_opset.all_opsets[(d, N)]` (and `onnxscript.opsetN`) is an instance of the class whose `__new__`
 says `(d, N)`, and every generated class is exported once. -/
 theorem exports_consistent : exportsOk classes exports = true := exports_ok
 
@@ -891,7 +898,11 @@ theorem eager_model_means_written_attributes {α} (c : Cls) (hc : c ∈ classes)
         intro a _
         rw [attrMeaning_dropNone hkeys a]
 
-/-- **eager_and_translated_denote_same_schema** (the property's last sentence, end to end, default domain).
+/-- **eager_and_translated_denote_same_schema** (the property's last sentence, end to end, **default domain `''`
+only**: in the other domains `IRFunction.append_node` lets the first version seen win and only warns about a later
+different one — `appendNode` — so the import need not be the class version there and the statement would be false;
+those domains are covered by `eager_model_resolves_to_class_schema` on the eager side and by the tie T8/T11 on the
+translation side).
 Let `OpsetN` be a generated default-domain class, `n` a name resolving on it, and take (i) any eager call
 `opsetN.n(*args, **kw)` that reaches the runtime, with its one-node model `M`, and (ii) any script function whose
 body calls `opsetN` and whose translation succeeds, exported with any `opset_version` option under any installed
@@ -904,11 +915,11 @@ theorem eager_and_translated_denote_same_schema {α} (c : Cls) (hc : c ∈ class
     (h : eagerRun schemas im m args kw = some M)
     (declared : Option (Nat × Nat)) (evs : List Ev) (st : ConvState)
     (ht : convert declared evs = .ok st) (hv : Ev.call 1 c.version ∈ evs) (opt : Option Nat) (current : Nat) :
-    ∃ v s, findTok 1 (exportImports st.imports opt current) = some v ∧
-      lookup schemas 1 v n = some s ∧
-      lookup schemas M.domain M.opsetImport.2 M.opType = some s := by
+    findTok 1 (exportImports st.imports opt current) = some c.version ∧
+      ∃ s, lookup schemas 1 c.version n = some s ∧
+        lookup schemas M.domain M.opsetImport.2 M.opType = some s := by
   rcases eager_model_resolves_to_class_schema c hc n m hr im args kw M h with ⟨s, hs, _, _, _, _, hk⟩
-  refine ⟨c.version, s, (exported_import_means_class declared evs st ht c.version hv opt current).2, ?_, hk⟩
+  refine ⟨(exported_import_means_class declared evs st ht c.version hv opt current).2, s, ?_, hk⟩
   rw [← hd]; exact hs
 
 /-- non-vacuity and a concrete reading: `opset20.Clip(x, None, hi)` (inherited from `Opset13`) reaches the
